@@ -1,7 +1,7 @@
 (* C11 - transpiling never runs user code, fails only cleanly (the evaluator and its call sites).
    Nothing but statements, closed by [exact], each followed by Print Assumptions. *)
 From Coq Require Import ZArith QArith List Bool.
-From RV Require Import Base.Wire Base.Text Lang.PyAst Lang.PySem Gen.SafeCasts Lang.ConstEval Proofs.ConstEvalP Proofs.ConstEvalCostP.
+From RV Require Import Base.Wire Base.Text Lang.PyAst Lang.PySem Gen.SafeCasts Lang.ConstEval Proofs.ConstEvalP Proofs.ConstEvalCostP Proofs.ConstEvalBoundP.
 Import ListNotations.
 Open Scope Z_scope.
 
@@ -41,7 +41,8 @@ Example C11_no_eval_nonvacuous :
 Proof. exact no_eval_example. Qed.
 Print Assumptions C11_no_eval_nonvacuous.
 
-(* which exception kinds leave the evaluator (on the modelled domain: bounded depth and magnitudes):
+(* which exception kinds leave the evaluator (on the modelled domain: CPython's recursion limit is not modelled - a
+   RecursionError is caught by the call sites or turned into ValueError by parse(); no IEEE infinities):
    ValueError anywhere; ZeroDivisionError only below / // % **; TypeError only below unary minus, a comparison,
    max/min or a bit operator *)
 Theorem C11_error_kinds_partial : forall cenv e k,
@@ -72,15 +73,47 @@ Example C11_error_kinds_nonvacuous :
 Proof. exact error_kinds_nonvacuous. Qed.
 Print Assumptions C11_error_kinds_nonvacuous.
 
-(* 2 ** (2 ** n): an input of O(log n) characters folds to an integer of 2^n + 1 bits - the evaluator's work
-   is not bounded by any polynomial in the size of its input *)
-Theorem C11_blowup_refuted : forall n, 0 <= n ->
-  exists z, eval_const [] (tower n) = CVal (VInt z) /\ bits (VInt z) = 2 ^ n + 1.
-Proof. exact blowup. Qed.
-Print Assumptions C11_blowup_refuted.
+(* the size of every integer the evaluator builds is bounded (the repaired F-C11-exponent-blowup; fold_max_bits is
+   _MAX_CONST_BITS of the current source, Gen/SafeCasts.v):
+   one application of _apply_bin - any operator of _BIN, any two values - yields at most
+   max(fold_max_bits, widest operand + 1) bits: ** << * are refused (ValueError, caught by the call sites like every
+   other evaluator error) when the predicted size exceeds the bound, the other operators grow an operand by one bit at most *)
+Theorem C11_fold_step_bounded : forall op a b v, apply_bin op a b = CVal v ->
+  bits v <= Z.max fold_max_bits (Z.max (bits a) (bits b) + 1).
+Proof. exact fold_step_bounded. Qed.
+Print Assumptions C11_fold_step_bounded.
 
-(* ... while the NUMBER of primitive operations is linear: fewer than twice the number of AST nodes, for every
-   expression and environment.  The unbounded cost of transpile-time evaluation is the size of the operands only. *)
+(* whole expressions, every environment: on the arithmetic fragment (literals, names, operators, conditions; the guard
+   excludes calls - int(<float>), int(<str>), len - whose results the exact-rational floats and the strings of the model
+   do not bound, not a defect of the code) the folded value has at most max(fold_max_bits, widest leaf) + size bits:
+   linear in the input, where the unrepaired evaluator reached 2^n + 1 bits on the n + 5 characters of 2**2**n *)
+Theorem C11_fold_bits_bounded : forall cenv e v, arith_only e = true -> eval_const cenv e = CVal v ->
+  bits v <= Z.max fold_max_bits (leaf_bits cenv e) + Z.of_nat (esize e).
+Proof. exact fold_bits_bounded_arith. Qed.
+Print Assumptions C11_fold_bits_bounded.
+
+(* the former witness family: 2 ** (2 ** n) is not folded as soon as its value would exceed the bound *)
+Theorem C11_tower_refused : forall n, 0 <= n -> fold_max_bits < 2 * 2 ^ n -> eval_const [] (tower n) = CFail KValue.
+Proof. exact tower_refused. Qed.
+Print Assumptions C11_tower_refused.
+
+(* non-vacuity: small towers are still folded (2**2**3 = 256), the first refused tower, 1 << (bound - 1) is folded and
+   1 << bound is not, a product one bit too wide, 9**9**9, an expression of the arithmetic fragment, the measure *)
+Example C11_fold_bound_nonvacuous :
+  eval_const [] (tower 3) = CVal (VInt 256) /\
+  eval_const [] (tower (Z.log2 fold_max_bits)) = CFail KValue /\
+  eval_const [] (EBin LShift (EInt 1) (EInt (fold_max_bits - 1))) = CVal (VInt (2 ^ (fold_max_bits - 1))) /\
+  eval_const [] (EBin LShift (EInt 1) (EInt fold_max_bits)) = CFail KValue /\
+  eval_const [] (EBin Mult (EInt (2 ^ fold_max_bits)) (EInt 2)) = CFail KValue /\
+  eval_const [] (EBin Pow (EInt 9) (EBin Pow (EInt 9) (EInt 9))) = CFail KValue /\
+  arith_only (EBin Add (EName [120]) (EBin Mult (EInt 3) (EInt 5))) = true /\
+  bits (VInt 255) = 8 /\ bits (VInt (-256)) = 9.
+Proof. exact fold_bound_examples. Qed.
+Print Assumptions C11_fold_bound_nonvacuous.
+
+(* ... and the NUMBER of primitive operations is linear: fewer than twice the number of AST nodes, for every
+   expression and environment.  With the bound on the operands above, the work of transpile-time evaluation is
+   polynomial in the size of the input. *)
 Theorem C11_operations_linear : forall cenv e, (length (snd (eval_const_fx cenv e)) < 2 * esize e)%nat.
 Proof. exact ops_linear. Qed.
 Print Assumptions C11_operations_linear.
